@@ -485,6 +485,8 @@ class NbSession:
                     exp_rc = EINSUFFBUF; queued = False
         q.exp_rc = exp_rc
         q.queued_spec = queued
+        q.spec_attached = self.attached[r]
+        q.spec_pending_bytes = sum(p.nbytes for p in self.pending[r] if p.kind == 'bput')
         self.reqs[(r, q.line)] = q
         self.ops.append(dict(op='post', ln=q.line, rank=r, req=q))
         if queued:
@@ -1324,7 +1326,7 @@ def judge(sess, iv):
                 if q.kind == 'bput' and rc == EINSUFFBUF and q.exp_rc == 0:
                     fail('bput-refused', 'F7:bput-refused-although-space', ln, r,
                          'bput of %d bytes refused (NC_EINSUFFBUF) with %d bytes attached and %d bytes of pending bputs: %s'
-                         % (q.nbytes, sess_attached(sess, o), sess_pending_bytes(sess, o), sess.lines[ln - 1]))
+                         % (q.nbytes, q.spec_attached, q.spec_pending_bytes, sess.lines[ln - 1]))
                 elif rc == ERANGE:
                     pass
                 elif q.kind == 'iget' and q.v.isrec and rc in (-40, -57) and q.exp_rc == 0:
@@ -1378,6 +1380,13 @@ def judge(sess, iv):
                     for i, (es_, got) in enumerate(zip(exp_status, stats)):
                         if es_[0] is not None and got[0] != es_[0]:
                             kk = 'F3:status-order-shortcut' if ann['shortcut'] else 'status-wrong'
+                            x = ann['named'][i]
+                            if isinstance(x, Req) and not x.isput and got[0] == ERANGE and es_[0] == 0:
+                                # a read buffer that was not (completely) filled is converted all the same
+                                mine = {(x.v.vid, j) for j in x.idxs}
+                                others = [p_ for p_ in ann['sel'] if (not p_.isput) and p_ is not x]
+                                if len(set(x.idxs)) != len(x.idxs) or any((p_.v.vid, j) in mine for p_ in others for j in p_.idxs):
+                                    kk = 'F2:get-overlapping-reads-one-wait'
                             fail('status', kk, ln, r, 'statuses[%d] = %d expected %d (request of slot %s): %s' %
                                  (i, got[0], es_[0], toks[i], sess.lines[ln - 1]))
                         if got[1] != -1:
@@ -1582,7 +1591,6 @@ def directed_sessions():
     d = Directed(1, [T, X], [(4, [1])])
     a = d.req(0, 'iput', 0, [0], [2]); b = d.req(0, 'iput', 0, [2], [2])
     d.do_coll_wait([('wait', 2, ['N', str(a.slot)])])
-    d.do_coll_wait([('cancel', 1, [str(b.slot)])][:0] or [('wait', 0, [])])
     d.do_step(0, ('cancel', 1, [str(b.slot)]), 'c')
     out.append(('F3-null-id', d.finish()))
     # F3: a duplicated id completes the request that is not named
